@@ -177,6 +177,11 @@ def decode_bits_contract(I, data, check_dict, result_dict):
                 ok = False  # short buffer: the clamping behaviour of slices is left to the real body
             elif len(val) == 3 and val[0] not in ("b", "w", "dw"):
                 ok = False
+    data = I.ctx.resolve(data)
+    if isinstance(data, V.SBuf) and isinstance(check_dict, dict) and isinstance(result_dict, dict) and all(
+            isinstance(v, (list, tuple)) and ((len(v) == 2 and isinstance(v[0], int) and v[0] > 0 and isinstance(v[1], int) and v[1] >= 0 and nbytes(v[0]) <= 32)
+                                              or (len(v) == 3 and v[0] in ("b", "w", "dw"))) for v in check_dict.values()):
+        return decode_bits_short_contract(I, data, check_dict, result_dict)
     if not ok:
         I.ctx.notes.append("decode_bits: contract not applicable, body inlined")
         return I.run_function(real, [data, check_dict, result_dict], {})
@@ -197,9 +202,66 @@ def decode_bits_contract(I, data, check_dict, result_dict):
     return None
 
 
+def sbuf_be_int(buf):
+    """big-endian integer of a symbolic-length buffer view of at most 32 bytes: an if-then-else over its
+    actual length (no path forking).  This is scsi_ba_to_int's contract instantiated per length (C10 proves the
+    function for every length 0..32)."""
+    import z3
+
+    n = buf.n
+    if isinstance(n, int):
+        top = n
+    else:
+        top = n.hi
+    if top is None or top > 32:
+        return None
+    off = V.to_intsort(buf.off)
+    cells = [V.SInt(z3.ZeroExt(V.W - 8, z3.Select(buf.arr, z3.simplify(off + i))), 0, 255) for i in range(top)]
+    if isinstance(n, int):
+        return V.be_int(cells)
+    val = V.be_int(cells)  # length == top
+    for l in range(top - 1, -1, -1):
+        val = V.ite(V.compare("==", n, l), V.be_int(cells[:l]), val)
+    return val
+
+
+def ba_to_int_contract(I, ba):
+    real = conv().scsi_ba_to_int
+    ba = I.ctx.resolve(ba)
+    if isinstance(ba, V.SBuf):
+        v = sbuf_be_int(ba)
+        if v is not None:
+            I.calls.append("contract:pyscsi.utils.converter.scsi_ba_to_int")
+            return v
+    return I.run_function(real, [ba], {})
+
+
+def decode_bits_short_contract(I, data, check_dict, result_dict):
+    """decode_bits on a buffer view of symbolic length: mask fields are the big-endian integer of the bytes that
+    exist in data[pos : pos+nbytes] (slice clamping), shifted and masked; blobs are the clamped slices"""
+    from pyvc.builtins_model import _frame
+
+    I.calls.append("contract:pyscsi.utils.converter.decode_bits(short)")
+    fr = _frame(I)
+    for key in check_dict.keys():
+        val = check_dict[key]
+        if len(val) == 2:
+            mask, pos = val
+            I.ctx.oblige("requires(decode_bits):mask-in-proved-family:%s" % key, in_proved_family(mask))
+            sl = fr.buf_slice(data, pos, pos + nbytes(mask))
+            value = spec_decode_field(sbuf_be_int(sl), mask)
+        else:
+            kind, offset, length = val
+            mult = {"b": 1, "w": 2, "dw": 4}[kind]
+            value = fr.buf_slice(data, offset, offset + length * mult)
+        I.ctx.writes.append((result_dict, "method:update", None))
+        result_dict.update({key: value})
+    return None
+
+
 def l0_contracts():
     c = conv()
-    return {c.encode_dict: encode_dict_contract, c.decode_bits: decode_bits_contract}
+    return {c.encode_dict: encode_dict_contract, c.decode_bits: decode_bits_contract, c.scsi_ba_to_int: ba_to_int_contract}
 
 
 # ------------------------------------------------------------------------------------------ C10 units
@@ -402,6 +464,52 @@ class DecodeField(Unit):
             yield "canary:field-is-zero", out.value["f"] == 0
 
 
+class DecodeShort(Unit):
+    """decode_bits / scsi_ba_to_int on buffers that may end inside the field (slice clamping): the real code
+    against the if-then-else-over-length spec used by the modular contracts"""
+
+    name = "converter/decode_bits:short-buffer"
+    properties = ("C10",)
+
+    def functions(self):
+        return [conv().decode_bits, conv().scsi_ba_to_int]
+
+    def cases(self, tier):
+        ms = [m for m in family(tier) if nbytes(m) <= 9]
+        if tier == "quick":
+            ms = [m for m in ms if m in repo_masks() or tz(m) in (0, 3)]
+        return [{"mask": "0x%X" % m, "off": o} for m in ms for o in (0, 2)]
+
+    def inputs(self, case):
+        return {"buf": Buf(maxlen=64)}
+
+    def run(self, X, case, a):
+        m = int(case["mask"], 16)
+        dec = {}
+        X.call(conv().decode_bits, a.buf, {"f": [m, case["off"]]}, dec)
+        return dec
+
+    def ensures(self, case, a, out, X):
+        if out.kind != "return":
+            yield "C10", "returns (raised %s)" % type(out.exc).__name__, False
+            return
+        m = int(case["mask"], 16)
+        nb, o = nbytes(m), case["off"]
+        if X.symbolic:
+            from pyvc.builtins_model import _frame
+
+            sl = _frame(X.I).buf_slice(a.buf, o, o + nb)
+            exp = spec_decode_field(sbuf_be_int(sl), m)
+        else:
+            exp = spec_decode_field(spec_ba_to_int(list(a.buf[o:o + nb])), m)
+        self._exp = exp
+        yield "C10", "short-buffer-decode==clamped-big-endian-field", out.value["f"] == exp
+
+    def canaries(self, case, a, out, X):
+        if out.kind == "return":
+            yield "canary:decoded-value-off-by-one", out.value["f"] == self._exp + 1
+
+
 class Blobs(Unit):
     """byte / word / dword blobs: encode assigns the slice, decode returns the slice"""
 
@@ -546,5 +654,6 @@ register(IntToBa())
 register(BaToInt())
 register(EncodeField())
 register(DecodeField())
+register(DecodeShort())
 register(Blobs())
 register(LayoutOrder())
